@@ -239,6 +239,8 @@ pub struct PathRecord {
 
 #[derive(Clone, Debug, Default)]
 pub struct Report {
+    /// boundary-restart work items dropped because the restart time budget was used up
+    pub restarts_skipped: u64,
     pub paths: u64,
     pub infeasible: u64,
     pub diverged: u64,
@@ -1437,6 +1439,10 @@ pub fn catch<T, F: FnOnce() -> T>(f: F) -> Result<T, String> {
     }
 }
 
+fn restarts_enabled() -> bool {
+    std::env::var("SYMX_RESTARTS").map(|v| v != "0").unwrap_or(true)
+}
+
 pub fn explore<F: Fn()>(f: F, opts: Opts) -> Report {
     let prev_hook = std::panic::take_hook();
     if std::env::var("SYMX_PANIC_TRACE").is_err() {
@@ -1444,7 +1450,10 @@ pub fn explore<F: Fn()>(f: F, opts: Opts) -> Report {
     }
     let mut rep = Report::default();
     let t_start = Instant::now();
-    let mut work: Vec<(Vec<bool>, BTreeMap<String, u128>)> = vec![(vec![], opts.assignment.clone())];
+    // (decision prefix, model, belongs to a boundary restart)
+    let mut work: Vec<(Vec<bool>, BTreeMap<String, u128>, bool)> = vec![(vec![], opts.assignment.clone(), false)];
+    let restart_budget = std::env::var("SYMX_RESTART_SECS").ok().and_then(|v| v.parse::<u64>().ok()).unwrap_or(60);
+    let mut restart_started: Option<Instant> = None;
     CTX.with(|c| {
         let mut c = c.borrow_mut();
         c.mode = opts.mode;
@@ -1463,7 +1472,16 @@ pub fn explore<F: Fn()>(f: F, opts: Opts) -> Report {
         c.vars_seen.clear();
         c.obligations.clear();
     });
-    while let Some((prefix, model)) = work.pop() {
+    while let Some((prefix, model, in_restart)) = work.pop() {
+        if in_restart {
+            // restarts are an extra on top of the exploration of the seeded witness: they get a time
+            // budget of their own and never count against exhaustiveness
+            let t0 = *restart_started.get_or_insert_with(Instant::now);
+            if t0.elapsed().as_secs() >= restart_budget {
+                rep.restarts_skipped += 1;
+                continue;
+            }
+        }
         if rep.paths >= opts.max_paths {
             rep.path_cap_hit = true;
             break;
@@ -1523,9 +1541,34 @@ pub fn explore<F: Fn()>(f: F, opts: Opts) -> Report {
         CTX.with(|c| {
             let mut c = c.borrow_mut();
             c.active = false;
+            // Boundary restarts: after the first (seeded) path, every ratio-like variable (range
+            // within [0, 10^9] starting at 0 or 1: fee, margin and liquidation ratios, price-band
+            // limits, ...) also starts one exploration from each end of its range, the other
+            // variables at their seeds. A concolically executed prefix records the decisions of its
+            // witness ("this fee is non-zero"); only a witness sitting in the zero / 100 % region
+            // opens that region to the forks of the transaction under test.
+            if rep.paths == 1 && c.mode == Mode::Sym && restarts_enabled() {
+                let first = if c.mode == Mode::Concrete { c.model.clone() } else { c.assignment() };
+                let mut extra = vec![];
+                for (name, (lo, hi)) in c.vars_seen.iter() {
+                    if *hi <= 1_000_000_000 && *lo <= 1 && hi > lo {
+                        for v in [*lo, *hi] {
+                            if first.get(name) != Some(&v) {
+                                let mut m = opts.assignment.clone();
+                                m.insert(name.clone(), v);
+                                extra.push((vec![], m, true));
+                            }
+                        }
+                    }
+                }
+                // (pushed first: the forks of the seeded path are explored before the restarts)
+                for e in extra.into_iter().rev() {
+                    work.insert(0, e);
+                }
+            }
             let pend: Vec<_> = c.pending.drain(..).collect();
-            for p in pend {
-                work.push(p);
+            for (pf, m) in pend {
+                work.push((pf, m, in_restart));
             }
             if rep.path_records.len() < opts.keep_paths {
                 let a = if c.mode == Mode::Concrete { c.model.clone() } else { c.assignment() };
